@@ -42,7 +42,9 @@ type ParentStep interface {
 type Flusher interface{ Flush(c *Ctx) }
 
 // ChildEnv lets a property add environment variables for its children.
-type ChildEnv interface{ Env(tier string, workdir string) []string }
+type ChildEnv interface {
+	Env(tier string, workdir string) []string
+}
 
 // ParentCtx is what a ParentStep gets.
 type ParentCtx struct {
